@@ -59,7 +59,7 @@ _rej = re.compile(r'<<"REJECT", (\d+)(?:, [^>]*)?>>')
 _done = re.compile(r'<<"DONE", (\d+), (\d+)>>')
 
 
-def validate_trace(module, trace_path, scratch, tag, timeout=1800, xmx='3g', cfg_name=None):
+def validate_trace(module, trace_path, scratch, tag, timeout=1800, xmx='3g', cfg_name=None, env_extra=None):
     """Validate one ndjson trace with spec/<module>.tla (+ .cfg).
     Returns (n_events, [rejected 1-based line numbers]).  TLCError on failure."""
     md = os.path.join(scratch, 'md_' + tag)
@@ -68,6 +68,8 @@ def validate_trace(module, trace_path, scratch, tag, timeout=1800, xmx='3g', cfg
     cmd = _java(xmx) + ['-workers', '1', '-metadir', md, '-config', cfg, module + '.tla']
     env = dict(os.environ)
     env['TRACE'] = trace_path
+    if env_extra:
+        env.update(env_extra)
     try:
         p = subprocess.run(cmd, cwd=SPEC, env=env, stdout=subprocess.PIPE, stderr=subprocess.STDOUT,
                            universal_newlines=True, timeout=timeout)
